@@ -146,6 +146,9 @@ let check_B line toks =
      bump "B-starts";
      let r = build src in
      exp_req "acc" (cls r); exp_req "acc2" (cls r);
+     (* the property itself: construction never panics, whatever the model says *)
+     (match get "acc" with Some "panic" -> report "B" id "acc-panic" "ok-or-err" "panic" line | _ -> ());
+     (match get "acc2" with Some "panic" -> report "B" id "acc-panic" "ok-or-err" "panic" line | _ -> ());
      bump ("start-" ^ cls r);
      (match r with
       | Ok b -> exp "paths" "ok";
@@ -407,6 +410,7 @@ let check_S line toks =
       bump "S-mv-ok"; "ok:" ^ string_of_bytes t ^ ":" ^ rp
     | Err _ -> "err" | Panic -> "panic" in
   exp "mv" mv;
+  List.iter (fun k -> match get k with Some "panic" -> report "S" id (k ^ "-panic") "ok-or-err" "panic" line | _ -> ()) ["mv"; "sq"; "fl"; "rk"; "pt"];
   (let raw = unhex (match get "in" with Some x -> x | None -> "") in
    let accepted = List.exists (fun k -> match get k with Some v -> String.length v > 1 && String.sub v 0 2 = "ok" | None -> false) ["mv"; "sq"; "fl"; "rk"; "pt"] in
    if accepted || String.contains raw '=' || List.exists (fun c -> Char.code c >= 128) (List.init (String.length raw) (String.get raw)) then nontrivial ("S" ^ raw));
@@ -426,6 +430,8 @@ let check_F line toks =
     | Err _ -> bump "F-rejected"; "err" | Panic -> "panic" in
   (match parse_fen s with Ok _ -> nontrivial ("F" ^ (match get "in" with Some x -> x | None -> "")) | _ -> ());
   exp "fen" fen; exp "gfen" "same";
+  (match get "fen" with Some "panic" -> report "F" id "fen-panic" "ok-or-err" "panic" line | _ -> ());
+  (match get "bfen" with Some "panic" -> report "F" id "fen-panic" "ok-or-err" "panic" line | _ -> ());
   exp "bfen" (match parse_fen s with Ok bd -> "ok:" ^ string_of_bytes (print_fen bd) | Err _ -> "err" | Panic -> "panic")
 let check_N line toks =
   let fs = fields_of toks in
